@@ -10,7 +10,12 @@
  * protocol keys are integers, 0 = the NULL key.  Key kinds (chosen by hash=…):
  *   const/low/mul/id/lib_ptr : the key IS the pointer value PTR(k), compared by value
  *   lib_str                  : interned decimal string of k, compared with cc_common_cmp_str
- *   lib_gen                  : interned klen-byte little-endian image of k, compared with memcmp */
+ *   lib_gen                  : interned klen-byte little-endian image of k, compared with memcmp
+ * With `keys=buf` (string / byte keys only) keys are real buffers: every call receives a *fresh copy* of
+ * the key's bytes — look-ups in a rotating scratch arena, insertions in a per-history arena whose slots
+ * stay valid while the table may store them — so an equal key never arrives as the stored pointer and
+ * only the comparator (strcmp / memcmp over key_length bytes, klen = 8 = sizeof(void*) included) can
+ * find it. */
 enum { K_PTR, K_STR, K_BYTES };
 static int key_kind = K_PTR, key_len_bytes = 4;
 #define NINTERN 8192
@@ -27,17 +32,40 @@ static size_t intern(uint64_t k) {
     for (int b = 0; b < 8; b++) intern_bytes[i][b] = (unsigned char)(k >> (8 * b));
     return i;
 }
-static void *mkkey(uint64_t k) {
-    if (k == 0) return NULL;
+static int key_fresh;                       /* keys=buf */
+#define NSCRATCH 64
+#define NARENA (1 << 15)
+static _Alignas(16) unsigned char scratch[NSCRATCH][32]; static size_t scratch_i;
+static _Alignas(16) unsigned char arena[NARENA][32]; static size_t arena_i;
+static void *interned_key(uint64_t k) {
     if (key_kind == K_STR) return intern_str[intern(k)];
     if (key_kind == K_BYTES) return intern_bytes[intern(k)];
     return PTR(k);
+}
+/* key for a look-up / removal / membership test: never the pointer the table stores */
+static void *mkkey(uint64_t k) {
+    if (k == 0) return NULL;
+    if (!key_fresh || key_kind == K_PTR) return interned_key(k);
+    unsigned char *slot = scratch[scratch_i++ % NSCRATCH];
+    memset(slot, 0xA5, 32);
+    memcpy(slot, interned_key(k), key_kind == K_STR ? strlen(intern_str[intern(k)]) + 1 : (size_t)key_len_bytes);
+    return slot;
+}
+/* key for an insertion (the table may keep the pointer): a new slot that stays valid for the history */
+static void *mkkey_stored(uint64_t k) {
+    if (k == 0) return NULL;
+    if (!key_fresh || key_kind == K_PTR) return interned_key(k);
+    if (arena_i >= NARENA) { fprintf(stderr, "key arena full\n"); exit(3); }
+    unsigned char *slot = arena[arena_i++];
+    memset(slot, 0x5A, 32);
+    memcpy(slot, interned_key(k), key_kind == K_STR ? strlen(intern_str[intern(k)]) + 1 : (size_t)key_len_bytes);
+    return slot;
 }
 static unsigned long long keyval(const void *p) {
     if (!p) return 0;
     if (key_kind == K_STR) return strtoull((const char *)p, NULL, 10);
     if (key_kind == K_BYTES) { unsigned long long v = 0; const unsigned char *b = p;
-        for (int i = 0; i < 8; i++) v |= (unsigned long long)b[i] << (8 * i); return v; }
+        for (int i = 0; i < 8 && i < key_len_bytes; i++) v |= (unsigned long long)b[i] << (8 * i); return v; }
     return VAL(p);
 }
 static int cmp_ptrval(const void *a, const void *b) { return (uintptr_t)a < (uintptr_t)b ? -1 : (uintptr_t)a > (uintptr_t)b; }
@@ -63,6 +91,7 @@ static void conf_from_cmd(Cmd *c, CC_HashTableConf *conf) {
     else if (!strcmp(h, "lib_gen")) { conf->hash = GENERAL_HASH; key_kind = K_BYTES; key_len_bytes = (int)kv_u64(c, "klen", 4);
         conf->key_compare = cmp_bytes; conf->key_length = key_len_bytes; }
     else conf->hash = h_id;
+    key_fresh = !strcmp(kv_str(c, "keys", "id"), "buf"); arena_i = 0;
     conf->mem_alloc = conf_malloc; conf->mem_calloc = conf_calloc; conf->mem_free = conf_free;
 }
 
@@ -170,11 +199,11 @@ static void do_op(Cmd *c) {
         if (st != CC_OK) ht = NULL;
         o_stat(st); o(" ");
     } else if (is_op(c, "new_default")) {
-        ht = NULL; it_valid = 0; key_kind = K_STR;
+        ht = NULL; it_valid = 0; key_kind = K_STR; key_fresh = 0;
         enum cc_stat st = cc_hashtable_new(&ht); if (st != CC_OK) ht = NULL; o_stat(st); o(" ");
     } else if (is_op(c, "arr_add") || is_op(c, "arr_destroy")) {
         if (slot < 1 || slot >= NSLOT || !darr[slot]) { o("st=- noslot "); }
-        else if (is_op(c, "arr_add")) { enum cc_stat st = cc_array_add(darr[slot], dkind[slot] == 1 ? mkkey(pos_u64(c, 0)) : PTR(pos_u64(c, 0))); o_stat(st); o(" "); }
+        else if (is_op(c, "arr_add")) { enum cc_stat st = cc_array_add(darr[slot], dkind[slot] == 1 ? mkkey_stored(pos_u64(c, 0)) : PTR(pos_u64(c, 0))); o_stat(st); o(" "); }
         else { cc_array_destroy(darr[slot]); darr[slot] = NULL; o("st=- "); }
     } else if (is_op(c, "destroy")) {
         if (ht) cc_hashtable_destroy(ht);
@@ -182,7 +211,7 @@ static void do_op(Cmd *c) {
     } else if (!ht) { o("st=- nosession ");
     } else if (is_op(c, "add")) {
         uint64_t k = pos_u64(c, 0); univ_add(k); it_valid = 0;
-        enum cc_stat st = cc_hashtable_add(ht, mkkey(k), PTR(pos_u64(c, 1))); o_stat(st); o(" ");
+        enum cc_stat st = cc_hashtable_add(ht, mkkey_stored(k), PTR(pos_u64(c, 1))); o_stat(st); o(" ");
         if (st == CC_OK && ht->size > ht->threshold) load_bound_broken = 1;
     } else if (is_op(c, "get")) {
         void *out = PTR(777777); enum cc_stat st = cc_hashtable_get(ht, mkkey(pos_u64(c, 0)), &out);
